@@ -2,7 +2,7 @@
    sequence of rx.Evaluate in internal/operators/rx.go (the code after the repairs
    ea7772d, 4c51aec, 49b39cd, d272616).  Function by function:
 
-     min_len               minLen
+     min_len               minLen (incl. the OpRepeat branch, exercised on unsimplified ASTs)
      has_flag              hasFlag(re, FoldCase)
      lit_str / raw_literal string(re.Rune) (+ strings.ToLower) / rawLiteral
      extract_literals      extractLiterals      (allRequired / anyRequired / combinedRequired)
@@ -43,19 +43,21 @@ Fixpoint min_len (r : re) : nat :=
   | Alt _ l => list_min (map min_len l)
   | Quest _ _ | Star _ _ => 0
   | Plus _ a => min_len a
+  | Rep _ mn _ a => if Nat.eqb mn 0 then 0 else mn * min_len a
   end%nat.
 
 (* ---------- flags, literal strings ---------- *)
 
 Definition node_fold (r : re) : bool :=
   match r with
-  | Lit f _ | Class f _ | Op0 f _ | Cap f _ | Star f _ | Plus f _ | Quest f _ | Cat f _ | Alt f _ => f
+  | Lit f _ | Class f _ | Op0 f _ | Cap f _ | Star f _ | Plus f _ | Quest f _ | Cat f _ | Alt f _
+  | Rep f _ _ _ => f
   end.
 
 Fixpoint has_flag (r : re) : bool :=
   node_fold r ||
   match r with
-  | Cap _ a | Star _ a | Plus _ a | Quest _ a => has_flag a
+  | Cap _ a | Star _ a | Plus _ a | Quest _ a | Rep _ _ _ a => has_flag a
   | Cat _ l | Alt _ l => existsb has_flag l
   | _ => false
   end.
@@ -195,6 +197,7 @@ Fixpoint extract_literals (r : re) (ci : bool) : lits :=
       | Some b => LAny b
       end
   | Plus _ a => extract_literals a ci
+  | Rep _ mn _ a => if (1 <=? mn)%nat then extract_literals a ci else LNone
   | _ => LNone
   end.
 
@@ -502,7 +505,7 @@ Definition exact_rel (r0 r : re) : bool :=
 Fixpoint num_caps (r : re) : nat :=
   match r with
   | Cap _ a => S (num_caps a)
-  | Star _ a | Plus _ a | Quest _ a => num_caps a
+  | Star _ a | Plus _ a | Quest _ a | Rep _ _ _ a => num_caps a
   | Cat _ l | Alt _ l => list_sum (map num_caps l)
   | _ => 0%nat
   end.
